@@ -1,1 +1,83 @@
-"""A-MPL model (filled in for C18)"""
+"""A-MPL: assumed geometry of matplotlib patches (documented meaning of their constructor arguments).
+Circle(xy, radius): disk;  Ellipse(xy, width, height, angle[deg]): ellipse with FULL axes width/height rotated anti-clockwise
+about its centre xy;  Rectangle(xy, width, height, angle[deg]): rectangle with lower-left corner xy, rotated anti-clockwise
+about that corner;  Polygon(xy): closed polygon through the (n, 2) vertex array;  Arrow(x, y, dx, dy): from (x, y) to (x+dx, y+dy);
+PathPatch(path).  A patch's outline as a Path is an abstract vertex/code array pair (get_path / get_transform)."""
+import vprim
+import numpy as np
+
+
+class Patch:
+    def _store(self, kwargs):
+        self.kwargs = dict(kwargs)
+
+    def get_path(self):
+        return Path(vprim.abstract_path_vertices(self), vprim.abstract_path_codes(self))
+
+    def get_transform(self):
+        return _Transform(self)
+
+
+class _Transform:
+    def __init__(self, patch):
+        self.patch = patch
+
+    def transform_path(self, path):
+        """data-space outline of the patch: an abstract closed polyline (vertices (n, 2), codes (n,))"""
+        return Path(vprim.abstract_outline_vertices(self.patch), vprim.abstract_outline_codes(self.patch), owner=self.patch)
+
+
+class Path:
+    def __init__(self, vertices, codes=None, owner=None):
+        self.vertices = vertices
+        self.codes = codes
+        self.owner = owner
+
+
+class Circle(Patch):
+    def __init__(self, xy, radius=5, **kwargs):
+        self.xy = xy
+        self.radius = radius
+        self._store(kwargs)
+
+
+class Ellipse(Patch):
+    def __init__(self, xy, width, height, angle=0, **kwargs):
+        self.xy = xy
+        self.width = width
+        self.height = height
+        self.angle = angle
+        self._store(kwargs)
+
+
+class Rectangle(Patch):
+    def __init__(self, xy, width, height, angle=0.0, rotation_point='xy', **kwargs):
+        self.xy = xy
+        self.width = width
+        self.height = height
+        self.angle = angle
+        self.rotation_point = rotation_point
+        self._store(kwargs)
+
+
+class Polygon(Patch):
+    def __init__(self, xy, closed=True, **kwargs):
+        self.xy = xy
+        self.closed = closed
+        self._store(kwargs)
+
+
+class Arrow(Patch):
+    def __init__(self, x, y, dx, dy, width=1.0, **kwargs):
+        self.x = x
+        self.y = y
+        self.dx = dx
+        self.dy = dy
+        self.width = width
+        self._store(kwargs)
+
+
+class PathPatch(Patch):
+    def __init__(self, path, **kwargs):
+        self.path = path
+        self._store(kwargs)
